@@ -28,6 +28,9 @@ import (
 )
 
 const fileLoadingPreparedRecordSetCap = 300
+
+// Upper limit of the record buffer allocated in advance from the estimated number of records.
+const fileLoadingMaxPreparedRecordSetCap = 1 << 22
 const fileLoadingBuffer = 300
 
 const inlineTablePrefix = "@__io__"
@@ -1205,6 +1208,17 @@ func loadViewFromLTSVFile(ctx context.Context, flags *option.Flags, fp *file.Rea
 	return view, nil
 }
 
+// estimateRecordSetCap extrapolates the number of records of a file from the bytes that the first
+// fileLoadingPreparedRecordSetCap records took. The estimate is only a hint for pre-allocation, so it
+// is kept within fileLoadingMaxPreparedRecordSetCap.
+func estimateRecordSetCap(fileSize int64, readBytes int64) int {
+	l := (float64(fileSize) / float64(readBytes)) * fileLoadingPreparedRecordSetCap * 1.2
+	if fileLoadingMaxPreparedRecordSetCap < l {
+		return fileLoadingMaxPreparedRecordSetCap
+	}
+	return int(l)
+}
+
 func readRecordSet(ctx context.Context, reader RecordReader, fileSize int64) (RecordSet, error) {
 	var err error
 	recordSet := make(RecordSet, 0, fileLoadingPreparedRecordSetCap)
@@ -1244,8 +1258,7 @@ func readRecordSet(ctx context.Context, reader RecordReader, fileSize int64) (Re
 			}
 
 			if 0 < fileSize && 0 < pos && len(recordSet) == fileLoadingPreparedRecordSetCap && pos < fileSize {
-				l := int((float64(fileSize) / float64(pos)) * fileLoadingPreparedRecordSetCap * 1.2)
-				newSet := make(RecordSet, fileLoadingPreparedRecordSetCap, l)
+				newSet := make(RecordSet, fileLoadingPreparedRecordSetCap, estimateRecordSetCap(fileSize, pos))
 				copy(newSet, recordSet)
 				recordSet = newSet
 			}
@@ -1387,8 +1400,7 @@ func loadViewFromJsonLinesFile(ctx context.Context, flags *option.Flags, fp *fil
 
 			pos := atomic.LoadInt64(&readBytes)
 			if 0 < fileSize && 0 < pos && len(objectList) == fileLoadingPreparedRecordSetCap && pos < fileSize {
-				l := int((float64(fileSize) / float64(pos)) * fileLoadingPreparedRecordSetCap * 1.2)
-				newSet := make([]txjson.Object, fileLoadingPreparedRecordSetCap, l)
+				newSet := make([]txjson.Object, fileLoadingPreparedRecordSetCap, estimateRecordSetCap(fileSize, pos))
 				copy(newSet, objectList)
 				objectList = newSet
 			}
